@@ -20,6 +20,8 @@ The statement is *false* of the code in three regions, each with a proved counte
 `explicit_http09_post_accepted_counterexample` (known findings, see notes/built/C03.md).
 -/
 import SquidModel.Smuggle.LoopLemmas
+import SquidModel.Smuggle.HeadShape
+import SquidModel.Smuggle.ChunkExact
 
 namespace SquidModel.C03
 open SquidModel SquidModel.Header SquidModel.Smuggle
@@ -186,6 +188,52 @@ theorem content_length_body_sound (cfg : Smuggle.Cfg) (url : Bytes → Bytes →
       split at hcln
       · simp [getInt64] at hcln
       · omega
+
+/-- **The head ends at the first empty line.** For every accepted request head: the buffer is a run of empty lines
+(none with the strict parser), the request line up to the *first* LF, and — for HTTP/1.x — the header block up to and
+including its *first* empty line (`firstEmptyLine`: lines are cut at LF, a line is empty when nothing or a lone CR
+precedes the LF); the body, or the next message, starts right there. An HTTP/0.9 request is its request line. This is the
+boundary a line-based RFC 9112 parser (2.2: LF tolerated as line terminator) finds; no other byte pattern ends a head. -/
+theorem head_ends_at_first_empty_line (cfg : Smuggle.Cfg) (url : Bytes → Bytes → Option UrlView) (buf rest : Bytes)
+    (es : List Entry) (cl : Int) (vmaj vmin : Nat) (m u : Bytes) (keep : Bool)
+    (h : head cfg url buf = .ok rest es cl vmaj vmin m u keep) :
+    ∃ g line b1, buf = g ++ line ++ 10 :: b1 ∧ EmptyLines g ∧ (cfg.relaxed = false → g = []) ∧
+      line ≠ [] ∧ (∀ c ∈ line, c ≠ 10) ∧
+      ((vmaj = 1 ∧ ∃ n, firstEmptyLine (b1.length + 1) b1 = some n ∧ rest = b1.drop n) ∨
+       (vmaj = 0 ∧ vmin = 9 ∧ rest = b1)) := by
+  obtain ⟨hd, hs, hrest, hvmaj, hvmin, _⟩ := head_ok_inv h
+  obtain ⟨f, rest1, hpf, hmaj, hmin, hshape⟩ := parse_accept_shape cfg.h1 buf hd hs
+  obtain ⟨g, hg, heg, hstrict⟩ := strip_spec cfg.h1 buf
+  obtain ⟨hline, hnolf, hne⟩ := parseFirstLine_ok_line hpf
+  refine ⟨g, (Http1.strip cfg.h1 buf).takeWhile Http1.notLF, rest1, ?_, heg, hstrict, hne, hnolf, ?_⟩
+  · rw [List.append_assoc, ← hline]; exact hg
+  · rcases hshape with ⟨hv1, n, o, hh, hb⟩ | ⟨hvn, hb⟩
+    · left
+      refine ⟨by rw [hvmaj, hmaj, hv1], n, ?_, by rw [hrest, hb]⟩
+      rw [← headersEnd_eq_firstEmptyLine, hh]; rfl
+    · right
+      rcases head_ok_version h with h1 | ⟨h0, h9⟩
+      · exfalso; rw [hvmaj, hmaj] at h1; exact hvn h1
+      · exact ⟨h0, h9, by rw [hrest, hb]⟩
+
+/-- **A body in the chunked grammar is decoded exactly.** When an accepted head announces a chunked body and the bytes
+after the head are an encoding `enc` of `body` in the chunked grammar of C24 (any chunk sizes below 2^63, hex case,
+leading zeros, extensions, trailers) followed by anything, the message handed on has exactly the body `body`, and the
+next message starts at the first byte after `enc`. -/
+theorem chunked_body_exact (cfg : Smuggle.Cfg) (url : Bytes → Bytes → Option UrlView) (buf : Bytes)
+    (es : List Entry) (cl : Int) (vmaj vmin : Nat) (m u : Bytes) (keep : Bool) (body enc extra : Bytes)
+    (h : head cfg url buf = .ok (enc ++ extra) es cl vmaj vmin m u keep) (hte : chunked es = true)
+    (henc : Chunked.Grammar.Encodes cfg.relaxed body enc) :
+    step cfg url buf = .msg (enc ++ extra) extra (descOf .ch es cl vmaj vmin m u keep body) := by
+  have hne : (enc ++ extra).isEmpty = false := by
+    have := encodes_ne_nil henc
+    cases enc with
+    | nil => exact absurd rfl this
+    | cons a r => rfl
+  obtain ⟨hv, ho, hi⟩ := feed_valid cfg.relaxed (fun _ => pipeSpace) pipeSpace_pos henc extra
+  unfold step
+  rw [h]
+  simp only [bodyKind, hte, if_true, hne, Bool.false_eq_true, if_false, hv, ho, hi]
 
 /-! ### the three regions where the property statement is false of the code (known findings), and their repaired variants -/
 
